@@ -11,6 +11,7 @@ def run(tier):
     rd = replay.Replay("harness.modes:c14delta")
     rd.run_lens("delta_ops")
     rd.run_lens("delta_indep")
+    rd.run_lens("delta_multi")
     out.add_replay(rd, "termmachine")
     ri = replay.Replay("harness.modes:c14integ")
     ri.run_lens("delta_integ")
